@@ -348,6 +348,7 @@ theorem xstep_inv (k : Kind) (trk : Nat → Bool) (nalt : Nat) (s : St) (t : Boo
     obtain ⟨s', h1, h2, -⟩ := x_self k trk nalt x0 x1 c a b t ha hb hA hB hbal true
     exact ⟨s', h1, h2⟩
   | use => exact x_use k trk nalt x0 x1 c a b t ha hb hA hB hbal hv
+  | assignOwn => simp [xvalid] at hv
 
 theorem xreach_inv {k : Kind} {trk : Nat → Bool} {nalt : Nat} (hn : 0 < nalt) {s : St}
     (h : XReach k trk nalt s) : VarInv trk nalt s := by
